@@ -287,4 +287,209 @@ class OperDynEngine(Engine):
       w.close()
 
 
-ENGINES = [OperEngine(), OperDynEngine()]
+def plain_py(v):
+  t = v[0]
+  if t == 'n':
+    return None
+  if t == 'l':
+    return [plain_py(x) for x in v[1]]
+  if t == 't':
+    return tuple(plain_py(x) for x in v[1])
+  if t == 'd':
+    return {plain_py(k): plain_py(x) for k, x in v[1]}
+  return v[1]
+
+
+class OperCornerEngine(Engine):
+  """Two kinds of history the Gin machine does not build, judged from the property text (implementation only):
+  bound  the configurable is a BOUND callable -- a bound method, a bound classmethod or a callable instance handed to
+         external_configurable: its first parameter (self / cls) is already supplied, so the caller's positional
+         arguments start at the next one.  After any calls the record lists exactly the parameters Gin supplied
+         (defaults and bindings minus what the caller passed in that call), and the text replays.
+  late   after the bindings were parsed, another configurable is registered under a name that makes a reference's
+         spelling ambiguous (a module imported later): calls keep working, operative_config_str() is produced, parses
+         into the cleared configuration and replays the same arguments and text."""
+  name = 'operative-corners'
+  model = False
+  PARAMS = ['a', 'b', 'c']
+  DEFAULTS = {'a': 1, 'b': 'x', 'c': [2]}
+
+  def budget(self, tier):
+    return 100 if tier == 'quick' else 3000
+
+  def corpus(self):
+    return [
+        {'kind': 'bound', 'shape': 'method', 'binds': [], 'calls': [['', 1, []]]},
+        {'kind': 'bound', 'shape': 'instance', 'binds': [], 'calls': [['', 1, []]]},
+        {'kind': 'bound', 'shape': 'classmethod', 'binds': [['', 'a', ['i', 7]], ['s1', 'b', ['s', 'y']]], 'calls': [['', 1, []], ['s1', 0, ['c']], ['s1', 2, []]]},
+        {'kind': 'bound', 'shape': 'function', 'binds': [['', 'a', ['i', 7]]], 'calls': [['', 1, []], ['', 0, []]]},       # control
+        {'kind': 'late', 'refs': [['a.g', 'g', True]], 'late': ['b.g'], 'calls_after': True},
+        {'kind': 'late', 'refs': [['a.g', 'g', False], ['pkg.sub.h', 'sub.h', True]], 'late': ['q.sub.h', 'b.g'], 'calls_after': False},
+    ]
+
+  def gen(self, rng, tier):
+    if rng.random() < 0.6:
+      binds = [[rng.choice(['', '', 's1']), p, ginm.gen_plain(rng, 0)] for p in rng.sample(self.PARAMS, rng.randint(0, 3))]
+      calls = []
+      for _ in range(rng.randint(1, 4)):
+        npos = rng.choice([0, 1, 1, 2, 3])
+        calls.append([rng.choice(['', '', 's1', 's1/s2']), npos, [p for p in self.PARAMS[npos:] if rng.random() < 0.3]])
+      return {'kind': 'bound', 'shape': rng.choice(['method', 'classmethod', 'instance', 'function']), 'binds': binds, 'calls': calls}
+    pool = [['a.g', 'g'], ['a.g', 'a.g'], ['pkg.sub.h', 'h'], ['pkg.sub.h', 'sub.h'], ['k', 'k']]
+    refs = [x + [rng.random() < 0.6] for x in rng.sample(pool, rng.randint(1, 3))]
+    return {'kind': 'late', 'refs': refs, 'late': rng.sample(['b.g', 'z.a.g', 'q.sub.h', 'w.h', 'late.k'], rng.randint(0, 3)),
+            'calls_after': rng.random() < 0.5}
+
+  def shrink(self, case):
+    for f in ('binds', 'calls', 'refs', 'late'):
+      if f in case:
+        for i in range(len(case[f])):
+          yield dict(case, **{f: case[f][:i] + case[f][i + 1:]})
+
+  def make_bound(self, gin, shape, log):
+    def body(a, b, c):
+      log.append({'a': a, 'b': b, 'c': c})
+      return (a, b, c)
+
+    class Holder:
+      def meth(self, a=1, b='x', c=[2]):  # pylint: disable=dangerous-default-value
+        return body(a, b, c)
+
+      @classmethod
+      def cmeth(cls, a=1, b='x', c=[2]):  # pylint: disable=dangerous-default-value
+        return body(a, b, c)
+
+      def __call__(self, a=1, b='x', c=[2]):  # pylint: disable=dangerous-default-value
+        return body(a, b, c)
+
+    def fn(a=1, b='x', c=[2]):  # pylint: disable=dangerous-default-value
+      return body(a, b, c)
+    target = {'method': Holder().meth, 'classmethod': Holder.cmeth, 'instance': Holder(), 'function': fn}[shape]
+    return gin.external_configurable(target, name='probe', module='c07m')
+
+  def bound(self, case, fails):
+    tags = [case['shape']]
+    texts, logs = [], []
+    want = {}
+    for run in (0, 1):
+      gin = C.fresh_gin()
+      log = []
+      probe = self.make_bound(gin, case['shape'], log)
+      if run == 0:
+        for sc, p, v in case['binds']:
+          gin.bind_parameter((sc + '/' if sc else '') + 'c07m.probe.' + p, plain_py(v))
+      else:
+        try:
+          gin.parse_config(texts[0])
+        except Exception as e:  # pylint: disable=broad-except
+          fails.append(('operative-text-does-not-replay', '%s: %s; text %r' % (type(e).__name__, str(e)[:160], texts[0])))
+          return tags
+      for sc, npos, kws in case['calls']:
+        args = ['pos%d' % i for i in range(npos)]
+        kwargs = {k: 'kw_' + k for k in kws}
+        try:
+          with gin.config_scope(sc or None):
+            probe(*args, **kwargs)
+        except Exception as e:  # pylint: disable=broad-except
+          fails.append(('call-raised' if run == 0 else 'operative-text-does-not-replay',
+                        'probe(*%r, **%r) in scope %r, a %s with parameters (a=1, b=\'x\', c=[2])%s: %s: %s' % (
+                            args, kwargs, sc, case['shape'], '' if run == 0 else ', repeated after parsing the operative text %r' % texts[0],
+                            type(e).__name__, str(e).splitlines()[0][:160])))
+          return tags
+        if run == 0:
+          # from the property text: what Gin supplies in this call = signature defaults overlaid with the bindings that apply
+          # in the call's scope, minus the parameters the caller passed
+          supplied = dict(self.DEFAULTS)
+          parts = sc.split('/') if sc else []
+          for i in range(len(parts) + 1):
+            for bsc, p, v in case['binds']:
+              if bsc == '/'.join(parts[:i]):
+                supplied[p] = plain_py(v)
+          got = log[-1]
+          for i, p in enumerate(self.PARAMS):
+            exp = 'pos%d' % i if i < npos else ('kw_' + p if p in kws else supplied[p])
+            if got[p] != exp:
+              fails.append(('wrong-arguments', 'probe(*%r, **%r) in scope %r received %s = %r, expected %r' % (args, kwargs, sc, p, got[p], exp)))
+              return tags
+          for p in self.PARAMS[:npos] + kws:
+            supplied.pop(p)
+          want.setdefault(sc, {}).update(supplied)
+      cfg = gin.config
+      record = {k[0]: dict(d) for k, d in cfg._OPERATIVE_CONFIG.items() if k[1] == 'c07m.probe'}  # pylint: disable=protected-access
+      if run == 0 and record != want:
+        fails.append(('operative-parameters', 'a %s probe(a=1, b=\'x\', c=[2]) with bindings %r called as %r: the record holds %r; Gin supplied %r' % (
+            case['shape'], case['binds'], case['calls'], record, want)))
+        return tags
+      try:
+        texts.append(gin.operative_config_str())
+      except Exception as e:  # pylint: disable=broad-except
+        fails.append(('operative-config-str-raised', '%s: %s' % (type(e).__name__, str(e)[:200])))
+        return tags
+      logs.append(log)
+    if logs[0] != logs[1]:
+      fails.append(('replay-different-arguments', 'first run %r; replay from the operative config %r; text %r' % (logs[0], logs[1], texts[0])))
+    elif texts[0] != texts[1]:
+      fails.append(('replay-different-text', '%r vs %r' % (texts[0], texts[1])))
+    tags.append('replayed')
+    return tags
+
+  def late(self, case, fails):
+    gin = C.fresh_gin()
+    log = []
+
+    def register(sel):
+      name = sel.split('.')[-1]
+
+      def fn(x=0, _sel=sel):
+        log.append(('in', _sel))
+        return 'result of ' + _sel
+      fn.__name__ = name
+      fn.__module__ = None
+      gin.external_configurable(fn, name=name, module='.'.join(sel.split('.')[:-1]) or None)
+    for sel in ('a.g', 'pkg.sub.h', 'k'):
+      register(sel)
+
+    @gin.configurable('consumer', module='c07m')
+    def consumer(r0=None, r1=None, r2=None):
+      vals = []
+      for r in (r0, r1, r2):
+        vals.append(r() if callable(r) else r)
+      log.append(('consumer', vals))
+      return vals
+    gin.parse_config(''.join('consumer.r%d = @%s%s\n' % (i, sp, '()' if ev else '') for i, (_, sp, ev) in enumerate(case['refs'])))
+    first = consumer()
+    for sel in case['late']:
+      register(sel)
+    if case['calls_after']:
+      again = consumer()
+      if again != first:
+        fails.append(('wrong-arguments', 'after %r were registered the same call received %r instead of %r' % (case['late'], again, first)))
+        return ['late%d' % len(case['late'])]
+    try:
+      text = gin.operative_config_str()
+    except Exception as e:  # pylint: disable=broad-except
+      fails.append(('operative-config-str-raised', '%s: %s; bindings %r, then %r registered' % (type(e).__name__, str(e).splitlines()[0][:160], case['refs'], case['late'])))
+      return ['late%d' % len(case['late'])]
+    listed = [l.split(' = ')[0].rsplit('.', 1)[-1] for l in text.splitlines() if ' = @' in l and l.split(' = ')[0].endswith(tuple('consumer.r%d' % i for i in range(3)))]
+    if sorted(listed) != ['r%d' % i for i in range(len(case['refs']))]:
+      fails.append(('operative-parameters', 'Gin supplied %d references to consumer (r0..); the text lists %r: %r' % (len(case['refs']), listed, text)))
+    gin.clear_config()
+    try:
+      gin.parse_config(text)
+      replay = consumer()
+    except Exception as e:  # pylint: disable=broad-except
+      fails.append(('operative-text-does-not-replay', '%s: %s; text %r' % (type(e).__name__, str(e).splitlines()[0][:160], text)))
+      return ['late%d' % len(case['late'])]
+    if replay != first:
+      fails.append(('replay-different-arguments', 'first run %r; replay from the operative config %r; text %r' % (first, replay, text)))
+    elif gin.operative_config_str() != text:
+      fails.append(('replay-different-text', '%r vs %r' % (text, gin.operative_config_str())))
+    return ['late%d' % len(case['late']), 'replayed']
+
+  def impl(self, case):
+    fails = []
+    tags = getattr(self, case['kind'])(case, fails)
+    return {'obs': T('Done'), 'fails': fails[:3], 'nontrivial': case['kind'] == 'late' or len(case['calls']) >= 2, 'tags': [case['kind']] + tags}
+
+
+ENGINES = [OperEngine(), OperDynEngine(), OperCornerEngine()]
